@@ -240,3 +240,10 @@ Proof.
   - split; [repeat split; intros; discriminate | eexists; exact E].
   - revert E. vm_compute. intros E; injection E; intros <-. reflexivity.
 Qed.
+
+(** the system-call monitor accepts the model's own Store, whatever the length of the value and
+    however its writes are split ([spec_ok x (model x) = true] for the Store traces) *)
+Theorem C10_store_trace_monitor_accepts_model : forall ws,
+  store_trace_ok (Z.of_nat (fold_right Nat.add 0%nat ws)) (sev_of_store ws) = true.
+Proof. exact store_trace_ok_of_model. Qed.
+Print Assumptions C10_store_trace_monitor_accepts_model.
